@@ -52,6 +52,7 @@ func runC16(c *report.Ctx) {
 	p := c.P
 	ruleStakingPeriodFromRequest(c)
 	ruleIndexedResultLengthChecked(c, []string{pkgAPI, pkgWallet, pkgTxmgr, pkgKeystore, pkgUtils}, 3) // the class an extractor reports does not tell how many addresses it parsed
+	ruleSequenceSiblings(c)                                                                            // the maturity read off a staking script is what the spending input carries
 	ruleDecoderTotality(c)                                                                             // the stored reading of an output's class (credit flag byte) must not be inherited from the row decoded before
 	c.Rule("class-table", "the three readers of a script class handle exactly {WitnessV0ScriptHash, StakingScriptHash, BindingScriptHash}", 3)
 	pps := fn(c, pkgUtils, "", "ParsePkScript")
